@@ -214,6 +214,28 @@ def ref_sweeten(cls, data, op):
         out = collections.OrderedDict(data)
         out[attr] = m
         return out
+    if k in ('map_to_seq', 'map_to_index'):
+        # the savorize-direction helpers used as sweeteners (Python holds a dict keyed by what the YAML items carry inside)
+        attr, keyattr, valattr = op[1], op[2], op[3]
+        if not isinstance(data, dict) or not isinstance(data.get(attr), dict):
+            return data
+        inner = data[attr]
+        if k == 'map_to_seq' and valattr is None and any(not isinstance(v, dict) for v in inner.values()):
+            return data
+        items = collections.OrderedDict()
+        for kk, v in inner.items():
+            if not isinstance(v, dict):
+                if valattr is None:
+                    items[kk] = v
+                    continue
+                v = collections.OrderedDict([(valattr, v)])
+            it = collections.OrderedDict(v)
+            if k == 'map_to_seq' or keyattr not in it:
+                it[keyattr] = kk
+            items[kk] = it
+        out = collections.OrderedDict(data)
+        out[attr] = list(items.values()) if k == 'map_to_seq' else items
+        return out
     if k == 'attr_to_scalar':
         if isinstance(data, dict) and list(data) == [op[1]]:
             return data[op[1]]
